@@ -7,6 +7,7 @@ import (
 	"os"
 	"path/filepath"
 	"sort"
+	"strconv"
 	"strings"
 	"sync"
 	"time"
@@ -546,6 +547,22 @@ func fsPlan(id string) func(cx *CheckCtx) int {
 			}})
 		}
 		cx.runJobs(jobs, "GoitTrace")
+		if id == "C15" {
+			// the design-level protocol model: exhaustive TLC check, then conformance of the recorded runs with its plans
+			if ms, err := runModelCheck(filepath.Join(cx.Scratch, "mc_FS"), "FS", 8, 20*time.Minute); err != nil {
+				cx.InfraErr = append(cx.InfraErr, err.Error())
+			} else {
+				cx.Models = append(cx.Models, ms)
+			}
+			acc, rej, ex, err := protocolConformance(filepath.Join(cx.Scratch, "fsproto"), stats.Protocol)
+			if err != nil {
+				cx.InfraErr = append(cx.InfraErr, err.Error())
+			}
+			cx.Extra["protocol_conformance"] = M{"runs": len(stats.Protocol), "accepted": acc, "rejected": rej, "rejected_examples": ex}
+			for _, e := range ex {
+				fmt.Fprintln(os.Stderr, "MODEL-DRIFT (write protocol, information only):", e)
+			}
+		}
 		cx.Extra["fs_cases"] = stats.CrashPoints + stats.FaultPoints
 		cx.Extra["crash_points"] = stats.CrashPoints
 		cx.Extra["fault_points"] = stats.FaultPoints
@@ -579,6 +596,7 @@ func mergeStats(a, b *fsStats) {
 	a.KillMismatch += b.KillMismatch
 	a.Commands += b.Commands
 	a.Drift += b.Drift
+	a.Protocol = append(a.Protocol, b.Protocol...)
 	for k, v := range b.ByCmd {
 		a.ByCmd[k] += v
 	}
@@ -673,4 +691,58 @@ func damagePlan(cx *CheckCtx) int {
 
 func init() {
 	plans["C19"] = damagePlan
+}
+
+// protocolConformance has TLC (GoitFSTrace) decide, for every recorded successful run, whether its abstract
+// operation sequence is in the language of the command's plan in GoitFS.tla.
+func protocolConformance(dir string, runs []M) (int, int, []string, error) {
+	if len(runs) == 0 {
+		return 0, 0, nil, nil
+	}
+	os.MkdirAll(dir, 0o777)
+	defer os.RemoveAll(dir)
+	if err := linkSpecs(dir); err != nil {
+		return 0, 0, nil, err
+	}
+	if err := writeNdjson(filepath.Join(dir, "fsops.ndjson"), runs); err != nil {
+		return 0, 0, nil, err
+	}
+	cmd := tlcCmd(dir, "3g", "-workers", "1", "-config", "GoitFSTrace.cfg", "GoitFSTrace.tla")
+	out, err := cmd.CombinedOutput()
+	txt := string(out)
+	if !strings.Contains(txt, "Model checking completed. No error has been found.") {
+		if len(txt) > 1200 {
+			txt = txt[len(txt)-1200:]
+		}
+		return 0, 0, nil, fmt.Errorf("GoitFSTrace failed (%v): %s", err, txt)
+	}
+	acc, rej := 0, 0
+	var ex []string
+	for _, ln := range strings.Split(txt, "\n") {
+		if !strings.HasPrefix(ln, "\"{") {
+			continue
+		}
+		s, uerr := strconv.Unquote(ln)
+		if uerr != nil {
+			continue
+		}
+		var rec struct {
+			K   string `json:"k"`
+			I   int    `json:"i"`
+			Cmd string `json:"cmd"`
+			Ok  bool   `json:"ok"`
+		}
+		if json.Unmarshal([]byte(s), &rec) != nil || rec.K != "P" {
+			continue
+		}
+		if rec.Ok {
+			acc++
+		} else {
+			rej++
+			if len(ex) < 5 && rec.I >= 1 && rec.I <= len(runs) {
+				ex = append(ex, fmt.Sprintf("%v: %v", runs[rec.I-1]["line"], runs[rec.I-1]["ops"]))
+			}
+		}
+	}
+	return acc, rej, ex, nil
 }
